@@ -68,6 +68,7 @@ type expectation struct {
 	nMatching int
 	errBefore bool // an earlier case errored
 	winner    int
+	testPanic string // a registered test panicked when called on the operand and the arguments of its case
 }
 
 // what the statement prescribes for the node under test
@@ -113,6 +114,7 @@ func (sc *Scenario) expect(t *tables) expectation {
 			res, panicked := t.callTest(c.Type, op.ID, ids)
 			if panicked {
 				e.skip = "test panics"
+				e.testPanic = c.Type
 				return e
 			}
 			switch typed := res.(type) {
@@ -218,6 +220,18 @@ func (sc *Scenario) directOracle(e expectation, obs *Obs, res *hx.Result, input 
 		}
 	}
 	if o.Outcome < 0 {
+		return
+	}
+	if e.testPanic != "" && !isExt(e.testPanic) {
+		// "leaves by the exit of the category of the first case ... otherwise by the default category's exit": a built-in test
+		// that panics takes the whole engine call down instead (the router neither leaves by an exit nor fails the run)
+		res.OracleChecks++
+		class := "switch:test-panics:" + e.testPanic
+		if _, _, defined := sc.collation(); !defined {
+			class = "env:input-collation-undefined:test-panics"
+		}
+		res.Fail(class, input, fmt.Sprintf("test %s panics on the operand and arguments of its case (input_collation=%q); engine outcome=%d %s",
+			e.testPanic, sc.Collation, o.Outcome, o.Detail))
 		return
 	}
 	if e.skip != "" {
